@@ -437,11 +437,14 @@ pub fn tick(r: &mut TimerRegs, irqs: &mut Vec<u8>) {
 pub enum TOp {
     Elapse(u8),
     Write(u32, u8),
+    /// the same charge `count` times in a row (long horizons, compactly)
+    Repeat(u64, u8),
 }
 impl TOp {
     fn text(&self) -> String {
         match self {
             TOp::Elapse(s) => format!("e{}", s),
+            TOp::Repeat(n, s) => format!("r{}x{}", n, s),
             TOp::Write(a, v) if (0xffff80..=0xffff9f).contains(a) => format!("w{:x}={:02x}", a & 0xff, v),
             TOp::Write(a, v) => format!("W{:x}={:02x}", a, v),
         }
@@ -449,6 +452,10 @@ impl TOp {
     fn parse(s: &str) -> Option<TOp> {
         if let Some(n) = s.strip_prefix('e') {
             return Some(TOp::Elapse(n.parse().ok()?));
+        }
+        if let Some(x) = s.strip_prefix('r') {
+            let (n, c) = x.split_once('x')?;
+            return Some(TOp::Repeat(n.parse().ok()?, c.parse().ok()?));
         }
         if let Some(x) = s.strip_prefix('W') {
             let (a, v) = x.split_once('=')?;
@@ -482,6 +489,14 @@ impl TimerRig {
     /// returns Some((aspect, text)) on violation
     pub fn apply(&mut self, op: &TOp) -> Option<(String, String)> {
         match op {
+            TOp::Repeat(n, s) => {
+                for i in 0..*n {
+                    if let Some((a, t)) = self.apply(&TOp::Elapse(*s)) {
+                        return Some((a, format!("charge {} of {} x {} states ({} states into the repetition): {}", i + 1, n, s, (i + 1) * *s as u64, t)));
+                    }
+                }
+                None
+            }
             TOp::Write(a, v) => {
                 let r = catch_unwind(AssertUnwindSafe(|| self.cpu.bus.write(*a, *v).is_ok()));
                 match r {
@@ -830,11 +845,39 @@ pub fn c17(rep: &mut Report, cfg: &Cfg) {
             );
         }
     }
+    // ---- 4. long horizons: one clock selection kept for more than 2^32 (thorough: 2^33) elapsed states,
+    // every charge judged (elapsed-state bookkeeping must not lose counts when a counter width is passed)
+    let lh_shards = if cfg.tier_thorough { cfg.nshards } else { 3.min(cfg.nshards) };
+    if cfg.shard < lh_shards {
+        let sel = 3 - (cfg.shard % 3) as u8; // /8192, /64, /8
+        let tcr = sel | if cfg.shard % 2 == 0 { 0x08 } else { 0 } | (rng.u8() & 0xe0);
+        let goal: u64 = if cfg.tier_thorough { (1 << 33) + (1 << 22) } else { (1 << 32) + (1 << 22) };
+        let s: u8 = if cfg.shard < 3 { 255 } else { 1 + 254u8.min(128 + rng.below(127) as u8) };
+        let mut ops = vec![TOp::Write(TCORA, 1 + rng.below(254) as u8), TOp::Write(TCORB, 0xff), TOp::Write(TCNT, rng.u8()), TOp::Write(TCSR, 0), TOp::Write(TCR, tcr)];
+        // in three chunks with rewrites of the same settings in between (these do not restart the clock)
+        let n = goal / s as u64 + 1;
+        ops.push(TOp::Repeat(n / 2, s));
+        ops.push(TOp::Write(TCSR, 0));
+        ops.push(TOp::Repeat(n / 2, s));
+        ops.push(TOp::Write(TCR, tcr));
+        ops.push(TOp::Repeat(4096, s));
+        rep.evaluations += 1;
+        let mut rig = TimerRig::new();
+        for (i, op) in ops.iter().enumerate() {
+            if let Some(v) = rig.apply(op) {
+                report_timer(rep, &ops, i, (format!("long-horizon.{}", v.0), v.1));
+                break;
+            }
+        }
+        rep.count("tick_events_simulated", rig.events);
+        rep.count("long_horizon_states_elapsed", n * s as u64);
+        rep.cell("long-horizon", &[divisor(tcr).unwrap_or(0) as u64, ((tcr >> 3) & 3) as u64, (64 - goal.leading_zeros()) as u64]);
+    }
     rep.sample(|| {
         let ops = gen_timer_history(&mut Rng::new(5), 12, 0x49);
         format!("history: {}", ops.iter().map(|o| o.text()).collect::<Vec<_>>().join(" "))
     });
-    rep.notes.push("C17: histories of state charges (1-255) interleaved with CPU writes to TCR/TCNT/TCORA/TCORB/TCSR for all 256 initial TCR values; tick-by-tick reference with phase inference (set of residues consistent with all observations since the clock was selected; an empty set = tick lost, gained or bunched), flags and interrupt multisets compared after every slice; clock changes between all divisor pairs at adversarial residues; metamorphic comparison of three partitions of the same elapsed time on the real timer. Clock selects 4-7 are not judged. Cells: (divisor, clear source, enable bits, flags newly set), (old divisor, new divisor), (divisor pair, residue class), metamorphic (divisor, clear, time bucket).".into());
+    rep.notes.push("C17: histories of state charges (1-255) interleaved with CPU writes to TCR/TCNT/TCORA/TCORB/TCSR for all 256 initial TCR values; tick-by-tick reference with phase inference (set of residues consistent with all observations since the clock was selected; an empty set = tick lost, gained or bunched), flags and interrupt multisets compared after every slice; clock changes between all divisor pairs at adversarial residues; metamorphic comparison of three partitions of the same elapsed time on the real timer. Long horizons: one clock selection kept for more than 2^32 (thorough 2^33) elapsed states per divisor, every charge judged. Clock selects 4-7 are not judged. Cells: (divisor, clear source, enable bits, flags newly set), (old divisor, new divisor), (divisor pair, residue class), metamorphic (divisor, clear, time bucket).".into());
 }
 
 pub fn replay_ports(line: &str) -> (bool, String) {
